@@ -412,6 +412,94 @@ theorem c12_sort_needed :
 example : entryKey canon true [(2,1),(1,1),(2,7)] = none ∧ entryKey canon true [(2,7),(2,1),(1,1)] = none ∧
     entryKey canon false [(2,7),(2,1),(1,1)] = some [(1,1),(2,1),(2,7)] := by decide
 
+/-! ## The real clock -/
+
+/-- every tracked group has rate 1 -/
+def AllOne (s : State ℚ) : Prop := ∀ g ∈ s.groups, g.rate = 1
+
+theorem observeGroups_allOne (key : Key) (gs : List (Group ℚ)) (h : ∀ g ∈ gs, g.rate = 1) :
+    (∀ g ∈ (observeGroups Q key gs).1, g.rate = 1) ∧ (observeGroups Q key gs).2 = 1 := by
+  induction gs with
+  | nil => simp [observeGroups, ratArith]
+  | cons g gs ih =>
+    have hg := h g (by simp)
+    have ih' := ih (fun x hx => h x (by simp [hx]))
+    unfold observeGroups
+    split
+    · refine ⟨?_, hg⟩
+      intro x hx
+      simp only [List.mem_cons] at hx
+      rcases hx with rfl | hx
+      · exact hg
+      · exact h x (by simp [hx])
+    · refine ⟨?_, ih'.2⟩
+      intro x hx
+      simp only [List.mem_cons] at hx
+      rcases hx with rfl | hx
+      · exact hg
+      · exact ih'.1 x hx
+
+theorem observe_allOne (s : State ℚ) (key : Key) (h : AllOne s) :
+    AllOne (observe Q s key).1 ∧ (observe Q s key).2 = 1 :=
+  observeGroups_allOne key s.groups h
+
+theorem rollsOver_one {α : Type} (c : Clocked α) (now : Nat) : rollsOver 1 c now = decide (c.next < now) := by
+  simp [rollsOver, Nat.mod_one]
+
+/-- **C12 (real clock).** `sample_rate` reads the clock on every call (`stride = 1`). For a sampler
+state reached by any history (`Inv`), with the generated constants:
+(1) a call at a time past `next_interval_start` rolls the interval over exactly once — whatever the
+    elapsed time — sets `next_interval_start = now + interval`, and counts the entry in the new interval;
+(2) if the interval that ends there saw no more than the target, that entry and (3) every later entry
+    up to the next roll-over is handed rate 1, and all group rates are 1;
+(4) the history invariant is preserved, so (1)–(3) apply along every timed history. -/
+theorem c12_clock_rollover (order : List Key) (c : Clocked ℚ) (now : Nat) (key : Key)
+    (hinv : Inv c.st) (ht : 0 < c.st.target) :
+    let r := sampleRateAt Q genConsts 1 order c now key
+    (c.next < now → r.1.next = now + c.interval ∧ r.1.st.cur = 1 ∧
+        r.1.st = (observe Q (updateRates Q genConsts order c.st) key).1) ∧
+    (c.next < now → c.st.cur ≤ c.st.target → r.2 = 1 ∧ AllOne r.1.st) ∧
+    (¬ c.next < now → AllOne c.st → r.2 = 1 ∧ AllOne r.1.st ∧ r.1.next = c.next ∧ r.1.st.cur = c.st.cur + 1) ∧
+    (Inv r.1.st ∧ r.1.st.target = c.st.target ∧ 0 < r.2 ∧ r.2 ≤ 1) := by
+  intro r
+  have hspec := updateRates_spec genConsts genConsts_window order c.st hinv ht
+  have hupd := updateRates_target genConsts order c.st
+  by_cases hroll : c.next < now
+  · have hr : r = ((⟨(observe Q (updateRates Q genConsts order c.st) key).1, now + c.interval, c.interval⟩ : Clocked ℚ),
+        (observe Q (updateRates Q genConsts order c.st) key).2) := by
+      simp only [r, sampleRateAt, rollsOver_one, hroll, decide_true, if_true]
+    have hinv' := updateRates_inv genConsts genConsts_window order c.st hinv ht
+    have hobs := observe_inv _ key hinv'
+    refine ⟨fun _ => ?_, fun _ hle => ?_, fun h => absurd hroll h, ?_⟩
+    · rw [hr]; exact ⟨rfl, by simp only [observe, hupd.2], rfl⟩
+    · rw [hr]
+      have hone : AllOne (updateRates Q genConsts order c.st) := hspec.2.1 hle
+      have := observe_allOne _ key hone
+      exact ⟨this.2, this.1⟩
+    · rw [hr]; exact ⟨hobs.1, hupd.1, hobs.2⟩
+  · have hr : r = ((⟨(observe Q c.st key).1, c.next, c.interval⟩ : Clocked ℚ), (observe Q c.st key).2) := by
+      simp only [r, sampleRateAt, rollsOver_one, hroll, decide_false]; rfl
+    have hobs := observe_inv _ key hinv
+    refine ⟨fun h => absurd h hroll, fun h => absurd h hroll, fun _ hone => ?_, ?_⟩
+    · rw [hr]
+      have := observe_allOne _ key hone
+      exact ⟨this.2, this.1, rfl, rfl⟩
+    · rw [hr]; exact ⟨hobs.1, rfl, hobs.2⟩
+
+/-- 8 entries per interval (interval 1000 ns, entries 10 ns apart), three intervals, target 10 -/
+def steadyEight : List (Nat × Key × List Key) :=
+  (List.range 24).map fun i => ((i / 8) * 1100 + (i % 8) * 10 + 1, [(1, 1)], [[(1, 1)]])
+
+/-- **The clock must be read on every call.** With the clock consulted only every 16th observation
+(`stride = 16`) a steady 8 entries per interval under a target of 10 — no interval ever above the
+target — is sampled at 5/8 from the 17th entry on; with `stride = 1` (the code) every rate is 1.
+(Evaluated over ℚ by the kernel.) -/
+theorem c12_clock_stride_breaks :
+    (runClocked Q genConsts 16 ⟨State.init 10, 0, 1000⟩ steadyEight).2 =
+      List.replicate 16 1 ++ List.replicate 8 (5/8) ∧
+    (runClocked Q genConsts 1 ⟨State.init 10, 0, 1000⟩ steadyEight).2 = List.replicate 24 1 := by
+  decide +kernel
+
 /-! ## Every binary32 rate has the shape the weight theorems assume -/
 
 /-- Every binary32 bit pattern of a rate in `(0,1]` (`0 < bits ≤ 0x3f800000`) decodes to `m·2^-k` with a
@@ -507,4 +595,6 @@ end Sampling
 #print axioms Sampling.c12_group_order_irrelevant
 #print axioms Sampling.c12_entries_are_observations
 #print axioms Sampling.c12_sort_needed
+#print axioms Sampling.c12_clock_rollover
+#print axioms Sampling.c12_clock_stride_breaks
 #print axioms Sampling.c12_f32_rate_shape
